@@ -5,6 +5,16 @@
 package main
 
 import (
+	"errors"
+	"os"
+	"sort"
+	"strconv"
+	"strings"
+
+	"github.com/go-git/go-git/v6/plumbing"
+	"github.com/go-git/go-git/v6/plumbing/storer"
+	"github.com/go-git/go-git/v6/storage"
+
 	"verif/harness/b10store"
 	"verif/harness/lib"
 )
@@ -46,7 +56,68 @@ func runOne(c lib.Case, spec string) (out lib.Out) {
 			results = append(results, lib.Sym("ok"))
 			continue
 		}
+		if o, ok := looseStep(u, st, spec, op); ok {
+			results = append(results, o)
+			continue
+		}
 		results = append(results, u.Step(st, op))
 	}
 	return lib.List(lib.List(results...), u.Snapshot(st))
+}
+
+// looseStep answers the calls of storer.LooseObjectStorer:
+//   ["delobj", k]   DeleteLooseObject(hash of k): ok | eNE (no such loose object file) |
+//                   eNS (the memory storer refuses: no loose objects)
+//   ["eachhash"]    ForEachObjectHash: I(_<k>)* — every id seen, sorted, duplicates kept
+func looseStep(u *b10store.Universe, st storage.Storer, spec string, op []any) (lib.Out, bool) {
+	name, _ := op[0].(string)
+	if name != "delobj" && name != "eachhash" {
+		return nil, false
+	}
+	los, ok := st.(storer.LooseObjectStorer)
+	if !ok {
+		return lib.Sym("eXnoloose"), true
+	}
+	if name == "delobj" {
+		var k int64
+		switch v := op[1].(type) {
+		case float64:
+			k = int64(v)
+		case interface{ Int64() (int64, error) }:
+			k, _ = v.Int64()
+		}
+		err := los.DeleteLooseObject(u.Hash(int(k)))
+		switch {
+		case err == nil:
+			return lib.Sym("ok"), true
+		case errors.Is(err, os.ErrNotExist):
+			return lib.Sym("eNE"), true
+		case strings.HasPrefix(spec, "memory"):
+			return lib.Sym("eNS"), true
+		}
+		return b10store.ErrClass(err), true
+	}
+	var ids []int
+	unknown := 0
+	err := los.ForEachObjectHash(func(h plumbing.Hash) error {
+		if i, ok := u.IdxOf(h); ok {
+			ids = append(ids, i)
+		} else {
+			unknown++
+		}
+		return nil
+	})
+	if err != nil {
+		return b10store.ErrClass(err), true
+	}
+	sort.Ints(ids)
+	var b strings.Builder
+	b.WriteString("I")
+	for _, i := range ids {
+		b.WriteString("_" + strconv.Itoa(i))
+	}
+	for i := 0; i < unknown; i++ {
+		b.WriteString("_Xunknown")
+	}
+	return lib.Sym(b.String()), true
 }
